@@ -6,6 +6,7 @@ import ast
 import re
 
 from vk import astx, align
+from vk.report import shape_rule
 from vk.algebra import Normalizer, bool_key, literals, spec_rat, spec_guard, NotClosedForm, simplify
 from vk.loader import AnalysisError
 
@@ -405,6 +406,7 @@ def d6_model_parameters(ctx):
     ctx.check(good, f, dr[0] if dr else f.node, "ballot-simplex models draw one symmetric Dirichlet weight per complete ranking", "", "Dirichlet parameter vector or the ranking enumeration changed")
 
 
+@shape_rule
 def d7_cambridge(ctx):
     """CambridgeSampler: historical ballot types are mapped onto the model's two blocs consistently."""
     prog = ctx.prog
